@@ -81,8 +81,13 @@ def flow_instances(tier, rng):
     quick = tier == "quick"
     dag = vlib.universe("dag", 4, k=3, w=2 if quick else 3, cap=12)
     us = [u for u in dag if max(u["ew"]) <= (4 if quick else 6)]
+    us = C.spread(us, 120 if quick else 495)
+    # larger shapes: nodes with several ways in AND several ways out (the excess of a window through them can be exactly 0 when
+    # the planted weights are equal) - the DAG motifs and 5-node DAGs
+    big = [u for u in C.motifs()[0] + ([] if quick else vlib.universe("dag", 5, k=3, w=2, cap=6)) if max(u["ew"]) <= 4]
+    us = us + C.spread(big, 60 if quick else 600)
     return [{"kind": "dag", "fn": "flow_safe_paths", "nodes": u["nodes"], "edges": u["edges"], "ew": u["ew"], "starts": [],
-             "ends": [], "items": []} for u in C.spread(us, 120 if quick else 495)]
+             "ends": [], "items": []} for u in us]
 
 
 def model_instances(tier, rng):
